@@ -13,6 +13,8 @@ OBLIGATIONS = [
     "Pkgcore.C07.cache_hit_complete",
     "Pkgcore.C07.caching_repo_sound",
     "Pkgcore.C07.builder_hash_history_independent",
+    "Pkgcore.C07.instance_cache_transparent",
+    "Pkgcore.C07.build_history_irrelevant",
 ]
 TRUSTED = [
     "CPython: hash of a tuple is a function of its members' hashes in order, hash of a frozenset a function of the set of members' hashes, "
@@ -25,6 +27,9 @@ TRUSTED = [
     "slot operator, sorted USE deps, repository): not proved here (C04 models atom.match), checked on differently spelled equal atoms",
     "ver_cmp is taken from the C01 model; version strings are lexed into its structure by the harness",
     "snakeoil GenericEquality (compare getattr(x, attr, sentinel) over __attr_comparison__) and cached_hash as read in snakeoil 0.11",
+    "snakeoil WeakInstMeta as read in snakeoil 0.11: cls(*a, **kw) is a dict lookup of (a, sorted kw) in the class's weak __inst_dict__ of alive "
+    "instances; instances whose arguments compare equal are == (constructors are functions of their arguments).  The harness empties every "
+    "restriction class's __inst_dict__ from outside to obtain the 'built alone' reference of a description",
 ]
 ASSUMPTIONS = [
     "the revision handed to _VersionMatch is None or a cpv.Revision (as atoms and the documented API pass it), never a plain str",
@@ -39,7 +44,12 @@ RULE = ("pairs of restrictions built independently through the public constructo
         "under negate, ~ with/without negate, revision None/''/'0'/'00'/'1'/'01', reordered or duplicated USE / set members, ! vs !!, case "
         "variants, hashed vs unhashed, if_missing flipped, DepSet permuted/duplicated, key/tag/ignore_missing changed) or a one-field mutation, "
         "applied at a random depth; PackageRestrictionMulti over several attribute tuples; boolean nodes assembled step by step (finalize=False, "
-        "add_restriction, finalize, with hash / dict / set / parent-node uses in between) against the same tree built in one go.  Each pair is compared with ==/!=/hash and matched against a universe of its domain (strings, string sets, "
+        "add_restriction, finalize, with hash / dict / set / parent-node uses in between) against the same tree built in one go; sibling classes over the "
+        "same arguments (ContainmentMatch <-> _UseDepDefaultContainment, StaticUseDep <-> UseDepDefault, also nested in boolean trees and multi-attribute "
+        "restrictions); atoms built from their parts (operator, version, revision, blocker, slot, sub-slot, slot operator none/=/*, USE deps with "
+        "sign and (+)/(-) default, repository) with variants differing in exactly one part or respelling it; families of 2-4 related descriptions "
+        "built one after the other with instance caching ON and all kept alive, each compared with the same description built alone (all instance "
+        "caches emptied) and pairwise with each other.  Each pair is compared with ==/!=/hash and matched against a universe of its domain (strings, string sets, "
         "(iuse, use) pairs, 40 packages).  non-trivial = the two objects are distinct and were built from different descriptions or hash states")
 
 
@@ -115,15 +125,32 @@ def g_strs_leaf(rng):
     return {"k": "always", "t": "values", "b": rng.random() < 0.5}
 
 
+def g_usedef(rng):
+    return {"k": "usedef", "m": rng.random() < 0.5, "vals": rng.sample(FLAGS, rng.choice([1, 1, 2])), "n": rng.random() < 0.4}
+
+
+def g_pair_leaf(rng):
+    """what may be handed an (iuse, use) pair: use-dep-default containments, but a plain containment or a constant is just as valid there"""
+    r = rng.random()
+    if r < 0.65:
+        return g_usedef(rng)
+    if r < 0.92:
+        d = g_contain(rng)
+        if rng.random() < 0.6:
+            d["all"] = not d["n"]      # the shape a use-dep-default containment has
+        return d
+    return {"k": "always", "t": "values", "b": rng.random() < 0.5}
+
+
 def g_value(rng, dom, depth):
-    """value-type restriction over the domain `dom` ('str' | 'strs')"""
+    """value-type restriction over the domain `dom` ('str' | 'strs' | 'pair')"""
     if depth > 0 and rng.random() < 0.35:
         kind = rng.choice(["and", "or", "or", "one", "amo"])
         return {"k": "bool", "t": "values", "kind": kind, "n": rng.random() < 0.3,
                 "cs": [g_value(rng, dom, depth - 1) for _ in range(rng.choice([0, 1, 2, 2, 3]))]}
     if depth > 0 and rng.random() < 0.08:
         return {"k": "negate", "r": g_value(rng, dom, depth - 1)}
-    return g_str_leaf(rng) if dom == "str" else g_strs_leaf(rng)
+    return g_str_leaf(rng) if dom == "str" else g_pair_leaf(rng) if dom == "pair" else g_strs_leaf(rng)
 
 
 def g_ver(rng):
@@ -161,7 +188,7 @@ def g_pkg(rng, depth):
         return {"k": k, "attr": "use", "r": dict(g_contain(rng), single=False), "n": rng.random() < 0.2,
                 "payload": [g_pkg(rng, 0) for _ in range(rng.choice([0, 1, 2]))]}
     if k == "atom":
-        return {"k": k, "s": rng.choice(ATOMS), "nv": rng.random() < 0.15}
+        return g_atom(rng)
     if k == "negate":
         return {"k": k, "r": g_pkg(rng, max(depth - 1, 0))}
     if k == "always":
@@ -175,8 +202,122 @@ MULTI_ATTRS = [["iuse_stripped", "use"], ["iuse_effective", "use"], ["use", "ius
 
 def g_prm(rng):
     """PackageRestrictionMulti over some attribute tuple (UseDepDefault is the one atoms build)"""
-    return {"k": "prm", "attrs": rng.choice(MULTI_ATTRS), "n": rng.random() < 0.3,
-            "r": {"k": "usedef", "m": rng.random() < 0.5, "vals": rng.sample(FLAGS, rng.choice([1, 2])), "n": rng.random() < 0.4}}
+    return {"k": "prm", "attrs": rng.choice(MULTI_ATTRS), "n": rng.random() < 0.3, "r": g_value(rng, "pair", 1)}
+
+
+# ---- atoms from their parts (rendered to text for the real parser), so that variants can differ in exactly one part
+A_KEYS = [("a", "b"), ("a", "b"), ("a", "b"), ("app", "foo"), ("c", "d")]
+A_OPS = ["", "", "", "=", "=", ">=", "<", "<=", ">", "~", "=*"]
+A_REVS = ["", "", "0", "00", "1", "01", "2"]
+A_REV_ALT = {"": ["0", "00"], "0": ["", "00"], "00": ["0", ""], "1": ["01"], "01": ["1"], "2": ["02"], "02": ["2"]}
+A_VER_ALT = {"1.0": ["1.00"], "1.00": ["1.0"], "1": ["01"], "2": ["02"], "0.9": ["00.9"], "1.0_rc1": ["1.0_rc01", "1.00_rc1"], "1.0a": ["1.00a"]}
+A_SLOTS = [None, "0", "1"]
+A_SUBSLOTS = [None, "0", "2"]
+A_REPOS = [None, "repo", "other"]
+
+
+def g_use(rng):
+    """static USE deps: [flag, '-' or '', '' | '(+)' | '(-)']"""
+    if rng.random() < 0.45:
+        return None
+    dflt = rng.choice(["", "", "(+)", "(-)", None])       # None: mixed
+    return [[f, rng.choice(["", "", "-"]), dflt if dflt is not None else rng.choice(["", "(+)", "(-)"])]
+            for f in rng.sample(FLAGS, rng.choice([1, 2, 2, 3]))]
+
+
+def g_atom_fields(rng):
+    cat, pkg = rng.choice(A_KEYS)
+    f = {"cat": cat, "pkg": pkg, "op": rng.choice(A_OPS), "ver": None, "rev": "", "block": rng.choice(["", "", "", "!", "!!"]),
+         "slot": None, "subslot": None, "slotop": None, "use": g_use(rng), "repo": rng.choice(A_REPOS) if rng.random() < 0.25 else None}
+    if f["op"]:
+        f["ver"] = rng.choice(VERS)
+        f["rev"] = "" if f["op"] == "~" else rng.choice(A_REVS)
+    r = rng.random()
+    if r < 0.3:
+        f["slot"] = rng.choice(A_SLOTS[1:])
+        f["subslot"] = rng.choice(A_SUBSLOTS)
+        f["slotop"] = rng.choice([None, None, "="])
+    elif r < 0.5:
+        f["slotop"] = rng.choice(["=", "*"])
+    return f
+
+
+def atom_text(f):
+    cpv = f"{f['cat']}/{f['pkg']}"
+    if f["op"]:
+        cpv += "-" + f["ver"] + ("-r" + f["rev"] if f["rev"] != "" else "")
+    s = f["block"] + (("=" + cpv + "*") if f["op"] == "=*" else f["op"] + cpv)
+    if f["slot"]:
+        s += ":" + f["slot"] + ("/" + f["subslot"] if f["subslot"] else "") + ("=" if f["slotop"] == "=" else "")
+    elif f["slotop"]:
+        s += ":" + f["slotop"]
+    if f["repo"]:
+        s += "::" + f["repo"]
+    if f["use"]:
+        s += "[" + ",".join(sign + flag + dflt for flag, sign, dflt in f["use"]) + "]"
+    return s
+
+
+def g_atom(rng):
+    if rng.random() < 0.35:
+        return {"k": "atom", "s": rng.choice(ATOMS), "nv": rng.random() < 0.15}
+    f = g_atom_fields(rng)
+    return {"k": "atom", "f": f, "s": atom_text(f), "nv": rng.random() < 0.15 and bool(f["op"])}
+
+
+def vary_atom_fields(rng, f):
+    """the same atom with exactly one part respelled or changed; returns (fields, what)"""
+    f = copy.deepcopy(f)
+    opts = ["slotop", "slotop", "slot", "block", "repo", "use_drop"]
+    if f["op"]:
+        opts += ["ver_respell", "ver_respell", "rev", "rev", "op", "ver"]
+    if f["slot"]:
+        opts += ["subslot"]
+    if f["use"]:
+        opts += ["use_order", "use_order", "use_default", "use_default", "use_default", "use_sign", "use_dup"]
+    c = rng.choice(opts)
+    if c == "slotop":
+        f["slotop"] = rng.choice([x for x in ([None, "="] if f["slot"] else [None, "=", "*"]) if x != f["slotop"]])
+    elif c == "slot":
+        f["slot"] = rng.choice([x for x in A_SLOTS if x != f["slot"]])
+        if f["slot"] is None:
+            f["subslot"] = None
+        elif f["slotop"] == "*":
+            f["slotop"] = None
+    elif c == "subslot":
+        f["subslot"] = rng.choice([x for x in A_SUBSLOTS if x != f["subslot"]])
+    elif c == "block":
+        f["block"] = rng.choice([x for x in ["", "!", "!!"] if x != f["block"]])
+    elif c == "repo":
+        f["repo"] = rng.choice([x for x in A_REPOS if x != f["repo"]])
+    elif c == "use_drop":
+        f["use"] = None if f["use"] else g_use(rng)
+    elif c == "ver_respell":
+        f["ver"] = rng.choice(A_VER_ALT.get(f["ver"], [f["ver"]]))
+    elif c == "rev":
+        if f["op"] != "~":
+            f["rev"] = rng.choice(A_REV_ALT[f["rev"]]) if rng.random() < 0.7 else rng.choice(A_REVS)
+    elif c == "op":
+        f["op"] = rng.choice([o for o in A_OPS if o and o != f["op"]])
+        if f["op"] == "~":
+            f["rev"] = ""
+    elif c == "ver":
+        f["ver"] = rng.choice(VERS)
+    elif c == "use_order":
+        f["use"] = f["use"][::-1]
+    elif c == "use_default":
+        if rng.random() < 0.6:      # the same default (or none) on every flag
+            d = rng.choice(["", "(+)", "(-)"])
+            f["use"] = [[flag, sign, d] for flag, sign, _ in f["use"]]
+        else:
+            i = rng.randrange(len(f["use"]))
+            f["use"][i][2] = rng.choice([x for x in ["", "(+)", "(-)"] if x != f["use"][i][2]])
+    elif c == "use_sign":
+        i = rng.randrange(len(f["use"]))
+        f["use"][i][1] = "" if f["use"][i][1] else "-"
+    elif c == "use_dup":
+        f["use"] = f["use"] + f["use"][:1]
+    return f, c
 
 
 def g_top(rng):
@@ -188,11 +329,13 @@ def g_top(rng):
     if r < 0.3:
         return "strs", g_value(rng, "strs", 2)
     if r < 0.36:
-        return "pair", {"k": "usedef", "m": rng.random() < 0.5, "vals": rng.sample(FLAGS, rng.choice([1, 2])), "n": rng.random() < 0.4}
+        return "pair", g_value(rng, "pair", rng.choice([0, 0, 1, 2]))
     if r < 0.44:
         return "pkg", dict(g_ver(rng), k="ver")
     if r < 0.48:
         return "pkg", {"k": "verglob", "ver": rng.choice(VERS), "rev": rng.choice(REVS)}
+    if r < 0.58:
+        return "pkg", g_atom(rng)
     return "pkg", g_pkg(rng, 2)
 
 
@@ -200,23 +343,23 @@ CONVERSE = {"<": ">=", "<=": ">", ">": "<=", ">=": "<"}
 REV_ALT = {None: ["", "0"], "": ["0", "00", None], "0": ["", "00", None], "00": ["0", ""], "1": ["01"], "01": ["1"], "2": ["02"], "02": ["2"]}
 
 
-def paths(d, pre=()):
-    """all sub-descriptions with their path"""
-    out = [(pre, d)]
+def paths(d, pre=(), pair=False):
+    """all sub-descriptions with their path and whether the node is handed (iuse, use) pairs"""
+    out = [(pre, d, pair)]
     for key in ("r",):
         if isinstance(d.get(key), dict):
-            out += paths(d[key], pre + (key,))
+            out += paths(d[key], pre + (key,), pair or d["k"] == "prm")
     for key in ("cs", "payload"):
         for i, c in enumerate(d.get(key, ()) if isinstance(d.get(key), list) else ()):
-            out += paths(c, pre + (key, i))
+            out += paths(c, pre + (key, i), pair)
     return out
 
 
-def variant(rng, d):
+def variant(rng, d, dom=None):
     """an equal-looking (or nearly equal) variant of the description, changed at one random node"""
     d = copy.deepcopy(d)
-    ps = paths(d)
-    path, node = rng.choice(ps)
+    ps = paths(d, (), dom == "pair")
+    path, node, pair_ctx = rng.choice(ps)
     k = node["k"]
     choice = rng.random()
     tag = "same"
@@ -263,6 +406,12 @@ def variant(rng, d):
             node["attr"] = rng.choice(STR_ATTRS)
         else:
             node["n"] = not node["n"]
+    elif k == "contain" and pair_ctx and choice < 0.45:
+        # the sibling class over the same flags (where a use-dep-default containment is a valid restriction)
+        tag = "class_contain_usedef"
+        vals, n = node["vals"], node["n"]
+        node.clear()
+        node.update({"k": "usedef", "m": rng.random() < 0.5, "vals": vals, "n": n})
     elif k == "contain":
         c = rng.choice(["reorder", "reorder", "dup", "single", "all", "n", "vals"])
         tag = "contain_" + c
@@ -280,6 +429,19 @@ def variant(rng, d):
         else:
             node["vals"] = rng.sample(FLAGS, rng.choice([1, 2]))
             node["single"] = False
+    elif k in ("usedef", "usedefault", "staticuse") and choice < 0.45:
+        # the sibling class built from the same flags: plain containment <-> use-dep-default containment
+        tag = "class_" + k
+        if k == "usedef":
+            vals, n = node["vals"], node["n"]
+            node.clear()
+            node.update({"k": "contain", "vals": vals, "single": False, "all": not n, "n": n})
+        elif k == "usedefault":
+            node.pop("m")
+            node["k"] = "staticuse"
+        else:
+            node["k"] = "usedefault"
+            node["m"] = rng.random() < 0.5
     elif k in ("usedef", "usedefault"):
         c = rng.choice(["m", "m", "reorder", "n"])
         tag = "usedef_" + c
@@ -302,8 +464,13 @@ def variant(rng, d):
             node["cs"] = not node["cs"]
         else:
             node["s"] = rng.choice(STRS)
+    elif k == "atom" and "f" in node and choice < 0.85:
+        node["f"], c = vary_atom_fields(rng, node["f"])
+        node["s"] = atom_text(node["f"])
+        tag = "atom1_" + c
     elif k == "atom":
         s = node["s"]
+        node.pop("f", None)
         c = rng.choice(["use_order", "block", "other", "nv"])
         tag = "atom_" + c
         if c == "use_order" and "[" in s:
@@ -314,7 +481,9 @@ def variant(rng, d):
         elif c == "nv":
             node["nv"] = not node["nv"]
         else:
-            node["s"] = rng.choice(ATOMS)
+            new = g_atom(rng)
+            node.clear()
+            node.update(new)
     elif k == "depset":
         toks = node["s"].split()
         c = rng.choice(["perm", "dup", "other"])
@@ -434,6 +603,53 @@ CORPUS = [
 ]
 
 
+def _ud(m, vals, n):
+    return {"k": "usedef", "m": m, "vals": vals, "n": n}
+
+
+def _cm(vals, all_, n):
+    return {"k": "contain", "vals": vals, "single": False, "all": all_, "n": n}
+
+
+def _and(*cs):
+    return {"k": "bool", "t": "values", "kind": "and", "n": False, "cs": list(cs)}
+
+
+def _at(s):
+    return {"k": "atom", "s": s, "nv": False}
+
+
+CORPUS += [
+    # sibling classes over the same flags: a use-dep-default containment is not the plain containment with the same shape and hash
+    ("pair", _ud(False, ["x"], False), _cm(["x"], True, False)),
+    ("pair", _ud(True, ["x", "y"], True), _cm(["x", "y"], False, True)),
+    ("pair", _and(_ud(False, ["x"], True), _ud(False, ["y"], False)), _and(_cm(["x"], False, True), _cm(["y"], True, False))),
+    ("pkg", {"k": "usedefault", "m": False, "false": ["x"], "true": ["y"]}, {"k": "staticuse", "false": ["x"], "true": ["y"]}),
+    ("pkg", {"k": "prm", "attrs": ["iuse_stripped", "use"], "n": False, "r": _ud(True, ["y"], False)},
+     {"k": "prm", "attrs": ["iuse_stripped", "use"], "n": False, "r": _cm(["y"], True, False)}),
+    # one part of an atom written out, left implicit or changed: slot operator, sub-slot, USE defaults
+    ("pkg", _at("a/b"), _at("a/b:*")), ("pkg", _at("a/b"), _at("a/b:=")), ("pkg", _at("a/b:*"), _at("a/b:=")),
+    ("pkg", _at("a/b[x]"), _at("a/b:*[x]")), ("pkg", _at(">=a/b-1.0"), _at(">=a/b-1.0:*")), ("pkg", _at("!a/b"), _at("!a/b:*")),
+    ("pkg", _at("a/b:0/0"), _at("a/b:0/0=")), ("pkg", _at("a/b:0/2"), _at("a/b:0")),
+    ("pkg", _at("a/b[-x,y]"), _at("a/b[-x(-),y(-)]")), ("pkg", _at("a/b[x(+)]"), _at("a/b[x]")), ("pkg", _at("a/b[x(+),y(-)]"), _at("a/b[x(+),y(+)]")),
+]
+
+# descriptions built one after the other with instance caching on, all kept alive (both orders are run)
+WARM_CORPUS = [
+    ("pkg", [_at("a/b[-x,y]"), _at("a/b[-x(-),y(-)]")]),
+    ("pkg", [_at("a/b[-x,y]"), _at("a/b[-x(+),y(+)]"), _at("a/b[y,-x]")]),
+    ("pkg", [{"k": "staticuse", "false": ["x"], "true": ["y", "z"]}, {"k": "usedefault", "m": False, "false": ["x"], "true": ["y", "z"]},
+             {"k": "usedefault", "m": True, "false": ["x"], "true": ["z", "y"]}]),
+    ("pkg", [_at("=a/b-1.0"), _at("=a/b-1.00"), _at("=a/b-1.0-r0"), _at("~a/b-1.0")]),
+    ("pkg", [_at("a/b:0"), _at("a/b:0="), _at("a/b:0/0"), _at("a/b")]),
+    ("pkg", [{"k": "vm", "op": "<", "ver": "1.0", "rev": None, "n": True}, {"k": "vm", "op": ">=", "ver": "1.0", "rev": None, "n": False},
+             {"k": "vm", "op": "~", "ver": "1.0", "rev": None, "n": True}, {"k": "vm", "op": "~", "ver": "1.0", "rev": None, "n": False}]),
+    ("pair", [_and(_cm(["x"], False, True), _cm(["y"], True, False)), _and(_ud(False, ["x"], True), _ud(False, ["y"], False)),
+              _and(_ud(True, ["x"], True), _ud(True, ["y"], False))]),
+    ("strs", [_cm(["x", "y"], True, False), _cm(["y", "x"], True, False), _cm(["x", "y"], False, False)]),
+]
+
+
 def run(ctx):
     import re as _re
     from pkgcore.restrictions import boolean, packages, values, restriction
@@ -444,6 +660,8 @@ def run(ctx):
     from pkgcore.test.misc import FakePkg, FakeRepo
     from snakeoil import klass
 
+    import time as _time
+    t_run = _time.time()
     rng = ctx.rng
     K = {"disable_inst_caching": True}
     FUNCS = [lambda x: bool(x), lambda x: len(x) > 1, lambda x: "a" in x]
@@ -467,7 +685,7 @@ def run(ctx):
     def mkrev(r):
         return None if r is None else Revision(r)
 
-    def build(d):
+    def build(d, K=K):
         k = d["k"]
         if k == "exact":
             o = values.StrExactMatch(d["s"], case_sensitive=d["cs"], negate=d["n"], **K)
@@ -480,11 +698,11 @@ def run(ctx):
         elif k == "usedef":
             o = restricts._UseDepDefaultContainment(d["m"], tuple(d["vals"]), negate=d["n"])
         elif k == "flatten":
-            o = values.FlatteningRestriction(DONT[d["d"]], build(d["r"]), negate=d["n"], **K)
+            o = values.FlatteningRestriction(DONT[d["d"]], build(d["r"], K), negate=d["n"], **K)
         elif k == "func":
             o = values.FunctionRestriction(FUNCS[d["f"]], negate=d["n"], **K)
         elif k == "strconv":
-            o = (values.UnicodeConversion if d["u"] else values.StrConversion)(build(d["r"]))
+            o = (values.UnicodeConversion if d["u"] else values.StrConversion)(build(d["r"], K))
         elif k == "ver":
             o = restricts._VersionMatch(d["op"], d["ver"], mkrev(d["rev"]), negate=d["n"], **K)
         elif k == "vm":
@@ -498,13 +716,13 @@ def run(ctx):
         elif k == "eqmatch":
             o = values.EqualityMatch(d["data"], negate=d["n"], **K)
         elif k == "anymatch":
-            o = values.AnyMatch(build(d["r"]), negate=d["n"], **K)
+            o = values.AnyMatch(build(d["r"], K), negate=d["n"], **K)
         elif k == "negate":
-            o = restriction.Negate(build(d["r"]))
+            o = restriction.Negate(build(d["r"], K))
         elif k == "pr":
-            o = packages.PackageRestriction(d["attr"], build(d["r"]), negate=d["n"], ignore_missing=d["im"], **K)
+            o = packages.PackageRestriction(d["attr"], build(d["r"], K), negate=d["n"], ignore_missing=d["im"], **K)
         elif k == "prm":
-            o = packages.PackageRestrictionMulti(tuple(d["attrs"]), build(d["r"]), negate=d["n"], **K)
+            o = packages.PackageRestrictionMulti(tuple(d["attrs"]), build(d["r"], K), negate=d["n"], **K)
         elif k == "dep":
             o = getattr(restricts, d["cls"])(d["s"], negate=d["n"], **K)
         elif k == "staticuse":
@@ -512,14 +730,14 @@ def run(ctx):
         elif k == "usedefault":
             o = restricts.UseDepDefault(d["m"], tuple(d["false"]), tuple(d["true"]), **K)
         elif k == "cond":
-            o = packages.Conditional(d["attr"], build(d["r"]), tuple(build(c) for c in d["payload"]), negate=d["n"], **K)
+            o = packages.Conditional(d["attr"], build(d["r"], K), tuple(build(c, K) for c in d["payload"]), negate=d["n"], **K)
         elif k == "bool":
             kw = dict(K, negate=d["n"])
             if d["kind"] == "keyed":
                 kw.update(key=d.get("key"), tag=d.get("tag"))
             else:
                 kw["node_type"] = d["t"]
-            o = VCLS[d["kind"]](*[build(c) for c in d["cs"]], **kw)
+            o = VCLS[d["kind"]](*[build(c, K) for c in d["cs"]], **kw)
         elif k == "atom":
             o = atom(d["s"], negate_vers=d["nv"], **K)
         elif k == "depset":
@@ -590,13 +808,19 @@ def run(ctx):
         iuse_effective = property(lambda self: EFF.get(id(self), frozenset(self.iuse_stripped)))
 
     def mkpkg(cpv, slot="0", subslot=None, use=(), iuse=(), repo="repo"):
-        return EffPkg(cpv, slot=slot, subslot=subslot, use=use, iuse=iuse, repo=FakeRepo(repo_id=repo))
+        p = EffPkg(cpv, slot=slot, subslot=subslot, use=use, iuse=iuse, repo=FakeRepo(repo_id=repo))
+        object.__setattr__(p, "use", frozenset(use))      # frozensets as on real packages (FakePkg keeps mutable sets)
+        object.__setattr__(p, "iuse", frozenset(iuse))
+        return p
 
+    USE_IUSE = [((), ()), (("x",), ("x", "y")), (("x", "y"), ("y",)), (("y",), ("x", "y")), (("x", "y"), ("x", "y", "z")),
+                ((), ("x", "y", "z")), (("y", "z"), ("y", "z"))]
     pkgs = []
     for cpv in ("a/b-1.0", "a/b-1.0-r0", "a/b-1.0-r1", "a/b-1.00", "a/b-0.9", "a/b-2", "a/b-1.0_rc1", "a/b-1.0a", "a/b-1", "a/b-1.0-r2",
                 "app/foo-1.0", "app/foo-2-r1", "dev/bar-1.0", "c/d-1"):
-        for slot, subslot, use, iuse, repo in (("0", None, (), (), "repo"), ("1", "2", ("x",), ("x", "y"), "other"),
-                                               ("0", "0", ("x", "y"), ("y",), "repo")):
+        for slot, subslot, repo in (("0", None, "repo"), ("1", "2", "other"), ("0", "0", "repo")):
+            # (use, iuse) cycles independently of the version / slot: flags on, off, missing from IUSE, set without being in IUSE
+            use, iuse = USE_IUSE[len(pkgs) % len(USE_IUSE)]
             pkgs.append(mkpkg(cpv, slot, subslot, use, iuse, repo))
     pkgs = pkgs[:42]
     # iuse_effective (the profile's implicit flags included) differs from iuse_stripped for some of them
@@ -794,16 +1018,35 @@ def run(ctx):
                 ctx.mismatch(case, "model: cached hash differs from the hash of the final children (contradicts builder_hash_history_independent)")
         hist_pend.clear()
 
+    def model_matches(items):
+        """items: [(dom, model restriction)] -> the model's match vector (or "opaque") of each over its domain's universe; the universe
+        travels once per request, not once per restriction"""
+        out = [None] * len(items)
+        reqs, slots = [], []
+        for dom in UNIV:
+            idx = [i for i, (d, _m) in enumerate(items) if d == dom]
+            for lo in range(0, len(idx), 400):
+                chunk = idx[lo:lo + 400]
+                reqs.append({"cmd": "c07.matchmany", "rs": [items[i][1] for i in chunk], "vals": UNIV_MODEL[dom]})
+                slots.append(chunk)
+        for chunk, rep in zip(slots, ctx.model(reqs)):
+            if not isinstance(rep, list) or len(rep) != len(chunk):
+                for i in chunk:
+                    out[i] = rep
+            else:
+                for i, r in zip(chunk, rep):
+                    out[i] = r
+        return out
+
     def flush():
-        reqs = []
+        reps = ctx.model([{"cmd": "c07.pair", "a": rec["ma"], "b": rec["mb"]} for _case, rec, _a, _b in pend])
+        items = []
         for case, rec, a, b in pend:
-            reqs.append({"cmd": "c07.pair", "a": rec["ma"], "b": rec["mb"]})
             dom = case["dom"] if "dom" in case else case["history"]["dom"]
-            reqs.append({"cmd": "c07.match", "r": rec["ma"], "vals": UNIV_MODEL[dom]})
-            reqs.append({"cmd": "c07.match", "r": rec["mb"], "vals": UNIV_MODEL[dom]})
-        reps = ctx.model(reqs)
+            items += [(dom, rec["ma"]), (dom, rec["mb"])]
+        mm = model_matches(items)
         for i, (case, rec, a, b) in enumerate(pend):
-            judge(case, rec, reps[3 * i], reps[3 * i + 1], reps[3 * i + 2])
+            judge(case, rec, reps[i], mm[2 * i], mm[2 * i + 1])
         pend.clear()
 
     def judge(case, rec, mp, mma, mmb):
@@ -811,6 +1054,9 @@ def run(ctx):
         if "history" in case:
             nontriv = not rec["same_obj"]
             ctx.case(case, nontriv, key=json.dumps(case["history"], sort_keys=True))
+        elif "warm" in case:
+            nontriv = not rec["same_obj"]
+            ctx.case(case, nontriv, key=json.dumps([case["warm"], case["members"]], sort_keys=True))
         else:
             nontriv = not rec["same_obj"] and json.dumps(case["a"], sort_keys=True) != json.dumps(case["b"], sort_keys=True)
             ctx.case(case, nontriv, key=json.dumps([case["dom"], case["a"], case["b"]], sort_keys=True))
@@ -864,6 +1110,133 @@ def run(ctx):
                 i = [j for j, (x, y) in enumerate(zip(real, mod)) if x != y][0]
                 ctx.mismatch(case, f"{who}.match on {describe(dom, UNIV[dom][i])} is {real[i]}, model gives {mod[i]}; model {who} = {json.dumps(rec['m' + who])[:300]}")
 
+    # ---- instance caches: a restriction built while other restrictions are alive, against the same description built alone
+    def inst_dicts():
+        out, seen, stack = [], set(), [restriction.base]
+        while stack:
+            c = stack.pop()
+            if c in seen:
+                continue
+            seen.add(c)
+            stack.extend(c.__subclasses__())
+            d = vars(c).get("__inst_dict__")
+            if d is not None:
+                out.append(d)
+        return out
+
+    def forget_instances():
+        """empty every WeakInstMeta instance cache: what is built next is built as in a process where nothing else is alive"""
+        for d in inst_dicts():
+            d.clear()
+
+    CACHED = {}      # no disable_inst_caching: the way pkgcore itself constructs restrictions
+
+    def tree_nodes(o, out, depth=0):
+        out.add(id(o))
+        if depth > 6:
+            return
+        for attr in ("restriction", "restrict"):
+            c = getattr(o, attr, None)
+            if c is not None and not isinstance(c, (str, bytes)):
+                tree_nodes(c, out, depth + 1)
+        for attr in ("restrictions", "payload"):
+            try:
+                cs = getattr(o, attr, None)
+            except Exception:
+                cs = None
+            if isinstance(cs, (tuple, list)):
+                for c in cs:
+                    tree_nodes(c, out, depth + 1)
+
+    def g_usedep_flavoured(rng):
+        k = rng.choice(["staticuse", "usedefault", "usedefault", "atom", "atom", "atom", "prm", "prs"])
+        if k == "staticuse":
+            return {"k": k, "false": rng.sample(FLAGS, rng.choice([0, 1, 1, 2])), "true": rng.sample(FLAGS, rng.choice([0, 1, 1, 2]))}
+        if k == "usedefault":
+            return {"k": k, "m": rng.random() < 0.5, "false": rng.sample(FLAGS, rng.choice([0, 1, 1, 2])), "true": rng.sample(FLAGS, rng.choice([0, 1, 1, 2]))}
+        if k == "atom":
+            f = g_atom_fields(rng)
+            while not f["use"]:
+                f["use"] = g_use(rng)
+            return {"k": "atom", "f": f, "s": atom_text(f), "nv": False}
+        if k == "prm":
+            return g_prm(rng)
+        return {"k": "pr", "attr": rng.choice(SET_ATTRS), "r": g_value(rng, "strs", 1), "n": rng.random() < 0.3, "im": True}
+
+    def gen_family(rng):
+        """a few related descriptions (one description, variants of it and variants of those) in a random order"""
+        if rng.random() < 0.5:
+            dom, d0 = "pkg", g_usedep_flavoured(rng)
+        else:
+            dom, d0 = g_top(rng)
+        members = [d0]
+        for _ in range(rng.choice([1, 1, 2, 3])):
+            d, _t = variant(rng, rng.choice(members), dom)
+            if rng.random() < 0.25:
+                d, _t = variant(rng, d, dom)
+            members.append(d)
+        rng.shuffle(members)
+        return {"dom": dom, "descs": members}
+
+    warm_pend = []
+
+    def stage_warm(fam, tag):
+        dom, descs = fam["dom"], fam["descs"]
+        univ = UNIV[dom]
+        cold = []
+        try:
+            for d in descs:
+                forget_instances()
+                o = build(d, CACHED)
+                cold.append(([do_match(o, x) for x in univ], to_model(o)))
+                del o
+            forget_instances()
+            objs = [build(d, CACHED) for d in descs]        # built in this order, all alive together
+        except Exception as e:
+            ctx.note(f"construction raised {type(e).__name__}: {str(e)[:80]} (case skipped)")
+            ctx.count("construction_failed")
+            return
+        node_sets = []
+        for o in objs:
+            ns = set()
+            tree_nodes(o, ns)
+            node_sets.append(ns)
+        shared = any(node_sets[i] & node_sets[j] for i in range(len(objs)) for j in range(i))
+        ctx.count("warm_families_sharing_instances" if shared else "warm_families_without_sharing")
+        case = {"dom": dom, "warm": fam, "variant": tag}
+        distinct = len({json.dumps(d, sort_keys=True) for d in descs}) > 1
+        ctx.case(case, distinct, key=json.dumps(fam, sort_keys=True))
+        vectors = []
+        for i, (o, (cm, _m)) in enumerate(zip(objs, cold)):
+            wm = [do_match(o, x) for x in univ]
+            vectors.append(wm)
+            diff = [j for j, (x, y) in enumerate(zip(wm, cm)) if x != y]
+            if diff:
+                j = diff[0]
+                ctx.violation(dict(case, member=i),
+                              f"description #{i} built while the restrictions of descriptions {list(range(i))} are alive matches {wm[j]} on "
+                              f"{describe(dom, univ[j])}; built alone it matches {cm[j]} (the instance cache handed out a tree built for a "
+                              f"different restriction: {o!r:.300})")
+        warm_pend.append((case, dom, [m for _c, m in cold], vectors))
+        # and the property itself on the objects as the caches deliver them
+        for i in range(len(objs) - 1):
+            stage_objs(dict(case, members=[i, i + 1]), dom, objs[i], objs[i + 1])
+
+    def flush_warm():
+        reps = iter(model_matches([(dom, m) for _case, dom, models, _v in warm_pend for m in models]))
+        for case, dom, models, vectors in warm_pend:
+            for i, (m, wm) in enumerate(zip(models, vectors)):
+                rep = next(reps)
+                if rep == "opaque" or any(isinstance(x, str) for x in wm):
+                    ctx.count("warm_match_model_opaque")
+                    continue
+                ctx.count("warm_match_model_compared")
+                if rep != wm:
+                    j = [q for q, (x, y) in enumerate(zip(wm, rep)) if x != y][0]
+                    ctx.mismatch(dict(case, member=i), f"description #{i} built among alive restrictions matches {wm[j]} on {describe(dom, UNIV[dom][j])}, "
+                                                       f"the model of the description built alone gives {rep[j]} (contradicts instance_cache_transparent)")
+        warm_pend.clear()
+
     if ctx.replay_cases:
         for c in ctx.replay_cases:
             if "a" in c and "b" in c and "dom" in c:
@@ -872,6 +1245,10 @@ def run(ctx):
         for c in ctx.replay_cases:
             if "history" in c:
                 stage_history(c["history"], "replay")
+    if ctx.replay_cases:
+        for c in ctx.replay_cases:
+            if "warm" in c:
+                stage_warm(c["warm"], "replay")
     cat_leaf = {"k": "dep", "cls": "CategoryDep", "s": "a", "n": False}
     pkg_leaf = {"k": "dep", "cls": "PackageDep", "s": "b", "n": False}
     slot_leaf = {"k": "dep", "cls": "SlotDep", "s": "0", "n": False}
@@ -889,14 +1266,19 @@ def run(ctx):
         stage(dom, db, da, "corpus")
         stage(dom, da, copy.deepcopy(da), "corpus_rebuild")
     flush()
-    n = ctx.n(1800, 50000)
+    for dom, descs in WARM_CORPUS:
+        stage_warm({"dom": dom, "descs": descs}, "corpus_warm")
+        stage_warm({"dom": dom, "descs": descs[::-1]}, "corpus_warm")
+    flush()
+    flush_warm()
+    n = ctx.n(2400, 50000)
     for i in range(n):
         dom, da = g_top(rng)
         r = rng.random()
         if r < 0.8:
-            db, tag = variant(rng, da)
+            db, tag = variant(rng, da, dom)
             if rng.random() < 0.25:
-                db, _ = variant(rng, db)
+                db, _ = variant(rng, db, dom)
         else:
             dom2, db = g_top(rng)
             tag = "independent"
@@ -905,10 +1287,13 @@ def run(ctx):
         stage(dom, da, db, tag)
         if i % 6 == 0:
             stage_history(gen_history(rng), "history")
+        if i % 5 == 0:
+            stage_warm(gen_family(rng), "warm")
         if len(pend) >= 4000:      # each driver start costs ~1 s: batch
             flush()
     flush()
     flush_history()
+    flush_warm()
 
     # ---------------------------------------------------------------- restriction-keyed caches on the real code
     from pkgcore.repository.misc import caching_repo
@@ -970,6 +1355,7 @@ def run(ctx):
         ctx.mismatch({"cache": "compiled REQUIRED_USE"}, f"could not exercise the REQUIRED_USE cache: {type(e).__name__}: {e}")
     ctx.extra["cache_pairs_on_real_code"] = {"caching_repo": ncache, "required_use_lru": nru}
     ctx.extra["universe_sizes"] = {k: len(v) for k, v in UNIV.items()}
+    ctx.extra["run_part_wall_s"] = round(_time.time() - t_run, 1)
 
 
 def _ru_element(values):
@@ -984,7 +1370,9 @@ LEVEL_TEXT = ("Kernel-checked Lean 4 theorems about a model of __eq__/__hash__/m
               "restrictions match the same values for every nesting, environment and value (eq_implies_same_match, structural induction incl. "
               "_convert_ops normalisation, Revision comparison, frozenset attributes, tuple and set-based (DepSet) equality of children) and have "
               "equal hash keys (eq_implies_same_hash); a dict keyed by restrictions returns only values stored under an equal key, hence the value "
-              "computed for the query itself (cache_lookup_sound, caching_repo_sound) and always hits on an equal key (cache_hit_complete). Tied to "
+              "computed for the query itself (cache_lookup_sound, caching_repo_sound) and always hits on an equal key (cache_hit_complete); a "
+              "description rebuilt bottom-up through instance caches that answer any constructor call with an alive equal instance matches what "
+              "the description built alone matches, whatever was built before (instance_cache_transparent, build_history_irrelevant). Tied to "
               "the code by building pairs of real objects, comparing ==, hash and match with the model, evaluating the property directly on the "
               "real objects, and exercising caching_repo and the REQUIRED_USE lru_cache with equal keys.")
 LEVEL_NOTE = ("Trusted: CPython hash/dict/set semantics as stated; abstract primitives (re, str.lower, user functions); atom.match as a function of "
